@@ -389,6 +389,7 @@ def gen_quality(draw):
     variants = G.gen_contig_variants(draw, seq, mingap=12, maxgap=60, kinds=("snv",), maxvars=14)
     haps = G.gen_haplotypes(draw, len(variants), ploidy)
     sets = assign_sets(draw, len(variants), 3)
+    linked = draw(st.integers(0, 2)) == 0
     reads = []
     for i in range(draw(st.integers(3, 14))):
         h = draw(st.integers(0, ploidy - 1))
@@ -402,6 +403,9 @@ def gen_quality(draw):
                 if draw(st.integers(0, 5)) == 0:
                     errs[str(vi)] = True
         reads.append({"name": "q%d" % i, "hap": h, "start": s, "end": e, "errors": errs, "quals": quals})
+        # linked reads: barcodes shared by reads of different haplotypes (the cloud is scored as a whole)
+        if linked and draw(st.integers(0, 1)) == 0:
+            reads[-1]["bx"] = draw(st.sampled_from(["B0", "B1", "B2"]))
     return {"ploidy": ploidy, "seq": seq, "variants": variants, "haps": haps, "sets": sets, "reads": reads}
 
 
@@ -452,12 +456,15 @@ class QualityPart:
                     bases[v["pos"] - s] = v["alt"] if al else v["ref"]
                     quals[v["pos"] - s] = r["quals"][str(vi)]
             recs.append({"name": r["name"], "sample": "s", "chrom": "chr1", "pos": s, "cigar": "%dM" % (e - s), "seq": "".join(bases), "qual": quals})
+            if r.get("bx"):
+                recs[-1]["tags"] = {"BX": r["bx"]}
         bam = G.write_bam(gcase, recs, os.path.join(d, "q.bam"))
         out = os.path.join(d, "qt.bam")
         run_tool(vcfgz, bam, out, None, {}, reference=False, ploidy=ploidy)
         with pysam.AlignmentFile(out, check_sq=False) as f:
             res = {a.query_name: phase_tags(a) for a in f.fetch(until_eof=True)}
         nt = False
+        own_scores = {}
         for r in case["reads"]:
             s, e = r["start"], r["end"]
             scores = {}
@@ -476,7 +483,27 @@ class QualityPart:
                 for h in range(ploidy):
                     if al[h] == obs:
                         sc[h] += r["quals"][str(vi)]
+            own_scores[r["name"]] = scores
+        # a read cloud (same barcode; the whole contig lies within the default distance cut-off) is scored as one unit
+        unit_scores = {}
+        for r in case["reads"]:
+            u = unit_scores.setdefault(r.get("bx") or r["name"], {})
+            for sid, sc in own_scores[r["name"]].items():
+                tot = u.setdefault(sid, [0] * ploidy)
+                for h in range(ploidy):
+                    tot[h] += sc[h]
+        for r in case["reads"]:
+            scores = unit_scores[r.get("bx") or r["name"]]
+            in_cloud = bool(r.get("bx")) and sum(1 for x in case["reads"] if x.get("bx") == r["bx"]) > 1
             tags = res.get(r["name"], {})
+            if in_cloud:
+                ctx.label("read-in-cloud")
+                if not own_scores[r["name"]] and tags:
+                    # a barcode mate without variants inherits HP/PS, never PC
+                    if "PC" in tags:
+                        ctx.violation("quality:cloud:pc-on-variant-free-read", "read %s covers no phased heterozygous variant but carries %r" % (r["name"], tags))
+                        continue
+                    tags = dict(tags, PC=None)
             if not scores:
                 if tags:
                     ctx.violation("quality:tagged-without-variants", "read %s covers no phased heterozygous variant but carries %r" % (r["name"], tags))
@@ -499,8 +526,11 @@ class QualityPart:
                     ctx.violation("quality:tie-tagged", "read %s tagged %r although haplotype scores %r tie" % (r["name"], tags, scores[sid]))
                 elif tags["HP"] != top[0] + 1:
                     ctx.violation("quality:not-argmax", "read %s tagged HP=%r, scores %r" % (r["name"], tags["HP"], scores[sid]))
-                elif tags.get("PC") != sc[0] - sc[1]:
+                elif tags.get("PC") != sc[0] - sc[1] and not (in_cloud and not own_scores[r["name"]]):
                     ctx.violation("quality:pc", "read %s PC=%r, expected %d (scores %r)" % (r["name"], tags.get("PC"), sc[0] - sc[1], scores[sid]))
+                elif in_cloud:
+                    nt = True
+                    ctx.label("cloud-tagged")
             else:
                 # untagged is right iff the (first) best set ties
                 if len(cands) == 1:
@@ -509,7 +539,7 @@ class QualityPart:
                         ctx.violation("quality:untagged", "read %s untagged although scores %r have a strict maximum" % (r["name"], scores[cands[0]]))
                     else:
                         nt = True
-                        ctx.label("tie-untagged")
+                        ctx.label("tie-untagged" + ("-cloud" if in_cloud else ""))
         ctx.nontrivial(nt)
         ctx.label("ploidy-%d" % ploidy)
 
